@@ -28,6 +28,13 @@ Definition rfc_profile : profile :=
 Definition aiohttp_profile : profile :=
   mkprofile (fun mx n => negb (mx =? 0) && (mx <=? n)) inflated_too_big (fun c => negb (close_code_bad c)).
 
+(* The deviations of aiohttp_profile from rfc_profile that are recorded as open findings, written out by hand
+   (independent of Generated/): the harness explains a deviation only by these, so an edit of the code's
+   comparisons is not silently absorbed; Proofs/WsRefine.v shows aiohttp_profile = known_quirks_profile. *)
+Definition known_quirks_profile : profile :=
+  mkprofile (fun mx n => negb (mx =? 0) && (mx <=? n)) (fun mx n => negb (mx =? 0) && (mx <? n))
+            (fun c => rfc_close_ok c || (c =? 1006)).
+
 Inductive vclass :=
 | VRsv | VOpcode | VCtlFragmented | VCtlTooLong | VLen64 | VTooBig | VContNoMessage | VDataInMessage
 | VUtf8 | VCloseCode | VCloseLen | VCodec | VTooManyMembers.
